@@ -122,13 +122,7 @@ Definition format_date_part (chars : text) (days : Z) : res text :=
   else if c =? 121 then                                             (* y *)
     let '(year, _, _) := days_to_date days in
     match len with
-    | 2 =>
-        let ys := i_to_string year in
-        let year2 := if Nat.ltb 2 (length ys)
-                     then (* last two characters, parsed back as a number (never negative) *)
-                       digits_val (skipn (length ys - 2) ys)
-                     else year in
-        Ok (zero_padded_i year2 2)
+    | 2 => Ok ((if year <? 0 then [45] else []) ++ zero_padded (Z.abs year mod 100) 2)   (* sign, last two digits *)
     | _ => Ok (zero_padded_i year len)
     end
   else if c =? 113 then                                             (* q *)
